@@ -187,7 +187,16 @@ def grids(tier, seed):
             t += '.' + str(rnd.randrange(0, 1000))
         calls.append(['parseHms', [t]])
         calls.append(['isHandTiming', [t]])
-    for t in ['10', '1:10', '1:1:10.1', 'x', '1:x', '', '12.5', '12.50', '12']:
+    # every text of length <= 6 over {digit, '.', ':'} (digits folded to two representatives): the hand-timing contract
+    # (no point, or fewer than two characters after the LAST point) and the h:m:s reading are decided on all shapes
+    import itertools
+    for L in range(1, 7 if tier == 'quick' else 8):
+        for tup in itertools.product('17.:', repeat=L):
+            t = ''.join(tup)
+            calls.append(['isHandTiming', [t]])
+            if L <= 5:
+                calls.append(['parseHms', [t]])
+    for t in ['10', '1:10', '1:1:10.1', 'x', '1:x', '', '12.5', '12.50', '12', '1.02.5', '1.00.0', '1.02.55', '12.3.45']:
         calls.append(['parseHms', [t]])
         calls.append(['isHandTiming', [t]])
     # table keys: normalisation
